@@ -380,8 +380,18 @@ func init() {
 			"(types 1..65535, number conventions in shortest form, every byte value, '.', '..', '%', '=', '/'), and parser inputs (all strings of <=3 symbols over a 27-symbol alphabet, random bytes, near-miss URIs); " +
 			"distinct = (relation class,len a,len b) for laws, (component class,value class) for URI, (length,feature) for parser inputs",
 		Assumptions: []string{"reference canonical order and prefix relation are re-implemented in the harness from the NDN spec", "64-bit hash collisions are not searched for (only equal => equal hash is asserted)"},
-		Batches:     func(t bool) int { if t { return 16 }; return 4 },
-		ChildTimeoutS: func(t bool) int { if t { return 1500 }; return 240 },
+		Batches: func(t bool) int {
+			if t {
+				return 16
+			}
+			return 4
+		},
+		ChildTimeoutS: func(t bool) int {
+			if t {
+				return 1500
+			}
+			return 240
+		},
 		Run:         c14Run,
 		MinDistinct: 20,
 	})
